@@ -74,6 +74,7 @@ func genC13Script(rng *vrng, idx int64, op string) c13Script {
 		sc.Link.D, sc.Link.P = 2, 1
 	}
 	sc.Link.UDPAddr = rng.chance(0.5)
+	sc.Link.Batch = rng.chance(0.4)
 	sc.API = pick(rng, []string{"specific", "SetDeadline"})
 	if rng.chance(0.4) {
 		sc.PreDL = rng.between(20, 400)
